@@ -85,6 +85,8 @@ type shape struct {
 	// Decode unmarshals stored data into the shape's Go type and reports whether it equals the published value
 	RoundTrip func(data []byte, id, variant int) bool
 	IDOf      func(ev any) (int, bool)
+	// SubReplay is SubscribeWithReplay for this shape
+	SubReplay func(ctx context.Context, bus *eventbus.EventBus, subID string, h func(id int)) error
 }
 
 func mustJSON(v any) []byte {
@@ -121,6 +123,9 @@ var shapes = []*shape{
 			return reflect.DeepEqual(got, want)
 		},
 		IDOf: func(ev any) (int, bool) { e, ok := ev.(PVal); return e.ID, ok },
+		SubReplay: func(ctx context.Context, bus *eventbus.EventBus, subID string, h func(int)) error {
+			return eventbus.SubscribeWithReplay(ctx, bus, subID, func(e PVal) { h(e.ID) })
+		},
 	},
 	{
 		Name: "pointer", TypeName: eventbus.EventType(&PVal{}), RT: reflect.TypeOf(&PVal{}),
@@ -148,6 +153,9 @@ var shapes = []*shape{
 			}
 			return e.ID, true
 		},
+		SubReplay: func(ctx context.Context, bus *eventbus.EventBus, subID string, h func(int)) error {
+			return eventbus.SubscribeWithReplay(ctx, bus, subID, func(e *PVal) { h(e.ID) })
+		},
 	},
 	{
 		Name: "named-value", TypeName: "named.event.v1", RT: reflect.TypeOf(PNamed{}),
@@ -163,6 +171,9 @@ var shapes = []*shape{
 			return json.Unmarshal(data, &got) == nil && got == PNamed{ID: id, Note: mkPVal(id, v).S}
 		},
 		IDOf: func(ev any) (int, bool) { e, ok := ev.(PNamed); return e.ID, ok },
+		SubReplay: func(ctx context.Context, bus *eventbus.EventBus, subID string, h func(int)) error {
+			return eventbus.SubscribeWithReplay(ctx, bus, subID, func(e PNamed) { h(e.ID) })
+		},
 	},
 	{
 		Name: "named-pointer-receiver", TypeName: "ptr-named.event.v1", RT: reflect.TypeOf(&PPtrNamed{}),
@@ -181,6 +192,9 @@ var shapes = []*shape{
 				return 0, false
 			}
 			return e.ID, true
+		},
+		SubReplay: func(ctx context.Context, bus *eventbus.EventBus, subID string, h func(int)) error {
+			return eventbus.SubscribeWithReplay(ctx, bus, subID, func(e *PPtrNamed) { h(e.ID) })
 		},
 	},
 }
